@@ -193,6 +193,8 @@ def make_iphist(nlines, preseed, families=None):
             cl.clean_content(["seen 20.0.0.%d before" % (i + 1)])   # earlier specs of this run, through the same entry point
         toks = []
         specs = []
+        width = en.flag("keep_width")      # the netstat layout: substitutes are padded / cut to the width of the original
+        at_end = en.flag("at_end")         # the last address is the last thing on its line
         nl = 1 + en.choice("nlines", nlines)
         for li in range(nl):
             ntok = (1 + en.choice("ntok%d" % li, 2)) if (li == 0 or nlines > 2) else 1
@@ -205,16 +207,22 @@ def make_iphist(nlines, preseed, families=None):
                     t = gen_family_ip(en, "ip%d_%d" % (li, ti), fam)
                     toks.append(t)
                 parts.append(("tok", t))
-                parts.append(("glue", " via " if ti + 1 < ntok else " up"))
+                parts.append(("glue", " via " if ti + 1 < ntok else (" up" if not at_end else "")))
             specs.append(parts)
         lines = ["".join([]) for _ in specs]
         lines = [cat(*[t for k_, t in parts]) for parts in specs]
-        case = lambda mv: {"kind": "iphist", "preseed": m, "lines": [mv.str(x) for x in lines]}  # noqa
+        case = lambda mv: {"kind": "iphist", "preseed": m, "lines": [mv.str(x) for x in lines], "width": width}  # noqa
         en.note_sample(case)
         outs = []
-        for ln in lines:
-            o = cl.clean_content([ln])            # each line is its own call: later lines model later specs of the same run
+        kept_specs = []
+        for parts_, ln in zip(specs, lines):
+            try:
+                o = cl.clean_content([ln], width=width)            # each line is its own call: later lines model later specs of the same run
+            except Exception:  # noqa   the spec cannot be cleaned: it is dropped as a whole (nothing of it is stored)
+                continue
             outs.append(o[0] if o else "")
+            kept_specs.append(parts_)
+        specs = kept_specs
         rep = ipo.mapping()
         T = lambda f: f if isinstance(f, bool) else truth(f)  # noqa
         # injective and functional report
@@ -225,6 +233,17 @@ def make_iphist(nlines, preseed, families=None):
                 same_s = f_eq(a["obfuscated"], b["obfuscated"]) if len(a["obfuscated"]) == len(b["obfuscated"]) else False
                 en.must_hold(f_not(same_o) if isinstance(same_o, bool) else SBool(f_not(same_o)), "ipv4-consistent", case, detail="mapping() lists one original twice")
                 en.must_hold(f_not(same_s) if isinstance(same_s, bool) else SBool(f_not(same_s)), "ipv4-consistent", case, detail="two originals share one substitute")
+        if width:
+            # keep-width output pads / cuts the substitutes, so the text is not compared with the mapping; what must hold is that no
+            # stored line still carries an original (outside the substitute range, which is the recorded finding's territory)
+            for parts, o in zip(specs, outs):
+                for k_, t in parts:
+                    if k_ == "tok" and not (isinstance(t, str) and not isinstance(t, SStr) and t.startswith("10.230.230.")):
+                        fam_sub = sstr.f_startswith(t, "10.230.230.") if len(t) > 11 else False
+                        leak = sstr.f_contains(o, t)
+                        ok = f_or(fam_sub, f_not(leak))
+                        en.must_hold(ok if isinstance(ok, bool) else SBool(ok), "ipv4-consistent", case, detail="a stored line still carries an original address (keep-width layout)")
+            return
         for parts, o in zip(specs, outs):
             exp = expected_from_mapping(parts, rep, T)
             en.must_hold(exp is not None, "ipv4-consistent", case, detail="a replaced original is missing from mapping()")
@@ -264,6 +283,8 @@ def make_hosthist():
                 else:
                     t = cat(sstr.fresh_str(en, "lab%d_%d" % (li, ti), 2, "abcxyz" if fqdn == K.FQDN else "abxAB"), "." + domain)
                     labs.append(t)
+                # punctuation directly in front of the name (a dotted list, an option dash, a scheme colon) is not part of the name
+                parts.append(("glue", sstr.fresh_str_upto(en, "punct%d_%d" % (li, ti), 1, ".-:/ ")))
                 parts.append(("tok", t))
                 parts.append(("glue", " and "))
             specs.append(parts)
@@ -453,9 +474,21 @@ def _native(case):
             ob = cl.obfuscate["hostname"]
             tokrx = r"[a-zA-Z]+\." + _re.escape(case.get("fqdn", K.FQDN).split(".", 1)[1])
         outs = []
+        kept_lines = []
         for ln in case["lines"]:
-            o = cl.clean_content([ln])
+            try:
+                o = cl.clean_content([ln], width=case.get("width", False)) if kind == "iphist" else cl.clean_content([ln])
+            except Exception:  # noqa   the spec is dropped as a whole
+                continue
             outs.append(o[0] if o else "")
+            kept_lines.append(ln)
+        if kind == "iphist" and case.get("width"):
+            for ln, o in zip(kept_lines, outs):
+                for t in _re.findall(tokrx, ln):
+                    if not t.startswith("10.230.230.") and _re.search(r"(?<![\d.])" + _re.escape(t) + r"(?![\d.])", o):
+                        bad.append("the stored line %r still carries the original %s (keep-width layout)" % (o, t))
+            return bad
+        case = dict(case, lines=kept_lines)
         rep = ob.mapping()
         origs = [e["original"] for e in rep]
         subs = [e["obfuscated"] for e in rep]
